@@ -144,3 +144,15 @@ Definition is_link_b (z : zone) (o nx : rname) : bool :=
 Definition genuine_b (z : zone) (r : cnsec) : bool :=
   is_link_b z (c_owner r) (c_next r) &&
   existsb (fun nd => rname_eqb (fst nd) (c_owner r) && list_eqb N.eqb (snd nd) (c_types r)) (z_nodes z).
+
+(* ---- mixtures with records of OTHER zones that lie below this zone's name (session 4).
+   A record replayed from a child zone (or any foreign record) whose owner and NextDomain both lie in
+   the subtree of one of the roots [ds] is "confined"; a name is "outside" when it lies in none of
+   those subtrees.  mix_roots: the zone's own cut owners (delegation points, DNAME owners) that are not
+   wildcard names — where child zones hang. *)
+Definition confined_b (ds : list rname) (r : cnsec) : bool :=
+  existsb (fun d => prefix_b d (c_owner r) && prefix_b d (c_next r)) ds.
+Definition outside_b (ds : list rname) (x : rname) : bool := forallb (fun d => negb (prefix_b d x)) ds.
+Definition not_wild_b (d : rname) : bool := negb (label_eqb (last d []) star).
+Definition mix_roots (z : zone) : list rname :=
+  map fst (filter (fun nd => cut_types_b (snd nd) && not_wild_b (fst nd)) (z_nodes z)).
